@@ -323,11 +323,59 @@ func init() {
 				run(callForm(g.Name, ia...), g.F(gargs), g.Name+" of "+rg.bm[in.b].Name, kindsOf(gargs), r)
 			},
 		}
+		// rename-keys: every map over {:a :b :c} x every renaming of those keys (swaps, chains,
+		// rotations, collisions, non-key targets)
+		rkTargets := []V{{}, kw("a"), kw("b"), kw("c"), model.Str("x"), model.Int(1)}
+		rkKeys := []string{"a", "b", "c"}
+		nT := int64(len(rkTargets))
+		rename := &vf.Family{
+			Name:   "rename-keys-exhaustive",
+			Bounds: "every map over keys {:a :b :c} (8 key sets) x every renaming map sending each of :a :b :c to nothing, :a, :b, :c, \"x\" or a non-key (216 renamings): swaps, chains, rotations, collisions",
+			Setup:  setup,
+			N:      func(string) int64 { return 8 * nT * nT * nT },
+			Describe: func(i int64) string {
+				m, ren := renameCase(i, rkTargets, rkKeys)
+				return fmt.Sprintf("(rename-keys %s %s)", m.Lisp(), ren.Lisp())
+			},
+			Run: func(i int64, r *vf.Rec) {
+				m, ren := renameCase(i, rkTargets, rkKeys)
+				var bm model.BuiltinModel
+				for _, b := range rg.bm {
+					if b.Name == "rename-keys" {
+						bm = b
+					}
+				}
+				run(callForm("rename-keys", q(model.ToImpl(m)), q(model.ToImpl(ren))), bm.F([]V{m, ren}), "rename-keys", "map,map", r)
+			},
+		}
 		return &vf.Check{
 			ID: "C13", Level: "model_checking",
 			Rule: "every (builtin, argument tuple) of the bounded space and every depth-2 composition is evaluated through the real EVAL and compared with a three-valued abstract model of sequences / string-keyed maps / string sets (exact value with kind, value in any order, must-error, error-or-nil, unspecified); non-trivial = the model specifies the outcome",
 			Assumptions: []string{"the model (harness/internal/model/coll.go) transcribes README + tests/step*.mal; everything they leave open is 'unspecified' and accepts any non-panicking outcome", "wrong argument counts are not generated"},
-			Families: []*vf.Family{direct, comp},
+			Families: []*vf.Family{direct, comp, rename},
 		}
 	})
+}
+
+
+func renameCase(i int64, targets []V, keys []string) (m, ren V) {
+	nT := int64(len(targets))
+	var rents []model.MapEntry
+	x := i
+	for _, k := range keys {
+		t := targets[x%nT]
+		x /= nT
+		if t.K == model.KNil && t.S == "" && t.I == 0 && t.Elems == nil && !t.B {
+			// zero Value = key not renamed (model.Nil is also the zero value: index 0 means absent)
+			continue
+		}
+		rents = append(rents, model.MapEntry{K: model.Key{Kw: true, S: k}, V: t})
+	}
+	var ments []model.MapEntry
+	for bi, k := range keys {
+		if x&(1<<uint(bi)) != 0 {
+			ments = append(ments, model.MapEntry{K: model.Key{Kw: true, S: k}, V: model.Int(bi + 1)})
+		}
+	}
+	return model.MapOf(ments...), model.MapOf(rents...)
 }
